@@ -216,6 +216,20 @@ CLAIMED = {
               "site, z3 QF_BV; loop invariant for the sequence-number generator; bounded enumeration for the ATX hat",
     note=TB + "; specs/gateways.py (vendor formats) and pyvc/aio.py (asyncio/os contracts) are assumed; SCI data-byte "
          "alignment unverified (either accepted); ATX hat only bounded"),
+ "C19": dict(
+    category="proof",
+    text="Per-byte refinement of both serial receivers against reference deframers written from the protocol grammars: for "
+         "every receiver state satisfying the representation invariant (LUBA: payload length 1..20, any progress, symbolic "
+         "buffer; SCI: every position) and every byte, the real _process_byte is proved to raise nothing, to re-establish the "
+         "invariant (list indices in bounds included) and, when the byte completes a frame, to deliver exactly the items the "
+         "reference assigns to it (backward-frame values, transmit confirmations, observed commands with the frame bits, "
+         "device info / settings / gateway replies) or to drop it (bad checksum, unknown type, length that cannot fit) and "
+         "resume; data_received is proved to be the fold of _process_byte, which gives chunking independence by induction.",
+    design_ref="DESIGN.md 6 (C19)",
+    technique="contract-based deductive verification: representation invariant + refinement of the byte step function "
+              "against a reference deframer, callee contract for Command.from_frame; z3 QF_BV",
+    note=TB + "; specs/deframe.py is the trusted oracle; payload-malformed frames set aside as the property says; induction "
+         "over the stream is argued, not mechanised"),
 }
 
 NA_REASON = "check under construction in this round (no obligations built yet); see DESIGN.md section 6"
